@@ -1,11 +1,96 @@
 """C39 — generic behaviour entry point: K[] decoding tables, return codes,
 policy forwarding, tri-state status discipline."""
 from gbrules import *
+import gencheck
 
 RULE = ("Intervals(1) abstract interpretation of the K[0] decoders through the call chain "
         "integrate -> computePredictionOperator / wrappers (table must agree with BehaviourData.h "
         "at every integer code -3..4 and 97..104); K[1]/K[2] decode tables; RETURN-CODES in {-1,0,1}; "
         "MUST-PRECEDE(setOutOfBoundsPolicy(p); initialize) and ARG-FORWARD(policy); TRISTATE")
+
+
+def rule_extmp_bounds(rep):
+    """EXTMP-BOUNDS: a behaviour whose material properties come from a bounded MFront material property tests the status of
+    <law>_checkBounds (0: in bounds, > 0: a standard bound is violated, < 0: a physical bound).  In the generated code every
+    raise<OutOfBoundsException> and every warning on that status is reached only where the status is known to differ from 0 (three-valued
+    facts on the comparisons of the status with 0), and the physical-bounds raise_if tests 'status < 0'."""
+    src_dir = os.path.join(VERIF, "corpus", "gbmp")
+    beh = os.path.join(src_dir, "VerifExtMP.mfront")
+    src, inc = gencheck.generate([beh], os.path.join(OUT, "C39", "genmp"), extra_args=("--search-path=" + src_dir,))
+    unit = os.path.join(src, "VerifExtMP-generic.cxx")
+    d = cfgdump([unit], os.path.join(OUT, "C39", "dumpmp"), funcs=r"^tfel::material::VerifExtMP", flags_for=gencheck.gen_flags(inc))
+    funcs = [Func(x, unit) for x in d[unit]["functions"]]
+    nsites = 0
+    for f in funcs:
+        if f.entry is None:
+            continue
+        status = {}
+        for n in f.stmts.values():
+            if n["k"] == "DeclStmt":
+                for dd in n["decls"]:
+                    if (dd.get("name") or "").endswith("_bounds_check_status"):
+                        status[dd["declId"]] = dd["name"]
+        if not status:
+            continue
+
+        def lit0(x):
+            n_ = f.stmts.get(f.strip(x))
+            return n_ is not None and n_["k"] == "IntegerLiteral" and int(n_["value"]) == 0
+
+        def atom(f_, s_):
+            bo = f_.binop(s_)
+            if bo and bo[0] in ("!=", "==", ">", "<"):
+                a = f_.stmts.get(f_.strip(bo[1]))
+                if a is not None and a["k"] == "DeclRefExpr" and a.get("declId") in status and lit0(bo[2]):
+                    if bo[0] in ("!=", "=="):
+                        return (("zero", a["declId"]), bo[0] == "!=")
+                    return ((bo[0], a["declId"]), False)
+            return None
+        bad = []
+        cnt = [0]
+
+        def el(st, b, i, e):
+            if "s" not in e:
+                return (st,)
+            n_ = f.stmts[e["s"]]
+            fx = dict(st)
+            if n_["k"] == "DeclStmt":
+                for dd in n_["decls"]:
+                    if dd.get("declId") in status:
+                        cur = dd["declId"]
+                        fx = {k_: v_ for k_, v_ in fx.items() if len(k_) < 2 or k_[1] != cur}
+                        fx[("cur",)] = cur
+                return (tuple(sorted(fx.items(), key=repr)),)
+            cal = (n_.get("callee") or "") if n_["k"] == "CallExpr" else ""
+            txt = ""
+            if n_["k"] == "CallExpr" and cal.split("<")[0].endswith("tfel::raise") and "OutOfBoundsException" in cal:
+                txt = "raise"
+            if n_["k"] == "CXXOperatorCallExpr" and n_.get("op") == "<<" and "out of its bounds" in f.text(e["s"]):
+                txt = "warning"
+            if txt and ("cur",) in fx:
+                cnt[0] += 1
+                cur = fx[("cur",)]
+                nonzero = fx.get(("zero", cur)) is False or fx.get((">", cur)) is True or fx.get(("<", cur)) is True
+                if not nonzero:
+                    bad.append((e["s"], txt, status[cur], fx.get(("zero", cur))))
+            return (st,)
+
+        def ed(st, b, succ, pol):
+            fx = branch(f, b, pol, dict(st), atom)
+            return () if fx is None else (tuple(sorted(fx.items(), key=repr)),)
+        forward(f, ((),), el, ed)
+        nsites += cnt[0]
+        if bad:
+            s_, what, nm, z = bad[0]
+            key = "EXTMP-BOUNDS@%s" % f.qname.split("(")[0]
+            if not any(v["key"] == key for v in rep.violations):
+                rep.fail(key, "%s: the generated code reaches the %s for the standard bounds of a material property where '%s' is %s: under the "
+                         "Strict policy a call whose arguments are all inside their bounds fails with -1, and a call outside them succeeds"
+                         % (rel(f.short_loc(s_)), what, nm, "known to be 0" if z is True else "not known to differ from 0"))
+        elif cnt[0]:
+            rep.ok("%s: out-of-bounds actions on the status of <law>_checkBounds are taken only for a non-zero status (%d sites)" % (f.qname.split("(")[0], cnt[0]), sample=False)
+    rep.count("out-of-bounds actions on a material property status", nsites)
+    rep.floor("out-of-bounds actions on a material property status", 2)
 
 
 def run(tier):
@@ -24,6 +109,7 @@ def run(tier):
                 rule_k0_tables(rep, funcs, w, hyps)
         if "FiniteStrain" in unit:
             rule_k12_tables(rep, funcs)
+    rule_extmp_bounds(rep)
     rep.floor("tri-state status variables", 15)
     rep.floor("K[0] code obligations", 16 * 7 * (5 if tier == "thorough" else 1))
     rep.floor("policy obligations", 20)
